@@ -276,17 +276,17 @@ func (t *c05type) yang() (typedefs string, leafType string) {
 }
 
 var rangeCatalog = map[string][]string{
-	"int8":      {"0..10", "-5..5", "min..0", "10..max", "-128..-100 | 100..127", "5", "1 | 3 | 5..7", "min..max", "-1..1"},
+	"int8":      {"0..10", "-5..5", "min..0", "10..max", "-128..-100 | 100..127", "5", "1 | 3 | 5..7", "min..max", "-1..1", "min | 5..7", "1 | max"},
 	"uint8":     {"0..10", "250..max", "min..5", "1..2 | 4 | 200..255", "128", "100..200"},
 	"int16":     {"-32768..-1", "0..1000", "min..max", "300", "-1..1 | 1000..2000"},
-	"uint16":    {"1024..65535", "0..0", "min..80 | 443 | 8000..8999", "1..max"},
-	"int32":     {"-2147483648..-2147483647", "0..100", "1..10 | 20..30", "min..-1", "2147483646..max", "-100..100"},
+	"uint16":    {"1024..65535", "0..0", "min..80 | 443 | 8000..8999", "1..max", "min | 100 | max"},
+	"int32":     {"-2147483648..-2147483647", "0..100", "1..10 | 20..30", "min..-1", "2147483646..max", "-100..100", "min | 5..10"},
 	"uint32":    {"0..4294967295", "4294967290..max", "1..65535", "min..0", "10 | 20 | 30"},
 	"int64":     {"-9223372036854775808..-9223372036854775807", "9223372036854775806..max", "-10..10", "min..0", "0..9007199254740993", "4611686018427387904..4611686018427387910"},
 	"uint64":    {"18446744073709551614..max", "0..10", "9223372036854775807..9223372036854775809", "min..1", "1..18446744073709551615"},
 	"decimal64": {"0..10", "-1.5..1.5", "0.5", "min..0", "99.9..max", "1.1..2.2 | 3.3..4.4", "-0.1..0.1"},
 }
-var lengthCatalog = []string{"0..3", "1..max", "2", "min..1", "1 | 3..4", "0", "3..5", "5..max", "2..2 | 6"}
+var lengthCatalog = []string{"0..3", "1..max", "2", "min..1", "1 | 3..4", "0", "3..5", "5..max", "2..2 | 6", "min | 3", "2 | max"}
 var patternCatalog = []c05pat{{"[a-z]+", false}, {"[0-9]{2}", false}, {"a.*", false}, {".*z", false}, {"ab", false}, {"[a-z]+", true}, {"x?y*", false}, {"(ab|cd)+", false}, {"[^0-9]*", false}, {"a|b", false}, {"\\d+", false}, {"[é世]+", false},
 	{"on|off", false}, {"[0-9]+ms|[0-9]+s|never", false}, {"ab|cd|z", true}}
 
